@@ -353,6 +353,9 @@ class Configuration(_Configuration):
 
         self._neighbors: dict[str, Any] = {}
         self._previous_neighbors: dict[str, Any] = {}
+        self._previous_processes: dict[str, Any] = {}
+        # True between _clear() and the commit or rollback which ends the reload
+        self._cleared: bool = False
 
     @classmethod
     def from_settings(cls, settings: 'ConfigurationSettings') -> 'Configuration':
@@ -485,10 +488,12 @@ class Configuration(_Configuration):
         return self.parser.tokeniser
 
     def _clear(self) -> None:
+        self._previous_processes = self.processes
         self.processes = {}
         self._previous_neighbors = self.neighbors
         self.neighbors = {}
         self._neighbors = {}
+        self._cleared = True
 
     # clear the parser data (ie: free memory)
     def _cleanup(self) -> None:
@@ -522,10 +527,15 @@ class Configuration(_Configuration):
         self.operational.clear()
 
     def _rollback_reload(self) -> None:
-        self.neighbors = self._previous_neighbors
-        self.processes = self.process.processes
+        # a reload which fails, for whatever reason, leaves the running configuration as it was
+        # (neighbors AND processes)
+        if self._cleared:
+            self.neighbors = self._previous_neighbors
+            self.processes = self._previous_processes
         self._neighbors = {}
         self._previous_neighbors = {}
+        self._previous_processes = {}
+        self._cleared = False
 
     def _commit_reload(self) -> None:
         self.neighbors = self.neighbor.neighbors
@@ -540,24 +550,37 @@ class Configuration(_Configuration):
                 self.neighbors[neighbor].previous = self._previous_neighbors[neighbor]
 
         self._previous_neighbors = {}
+        self._previous_processes = {}
+        self._cleared = False
+        self._cleanup()
+
+    def _abort_reload(self) -> None:
+        # back to the running configuration, and the parser (scope, section names, peers seen)
+        # forgets the file which failed: otherwise the next reload trips over what is left
+        self._rollback_reload()
         self._cleanup()
 
     def reload(self) -> bool:
         try:
             return self._reload()
         except KeyboardInterrupt:
+            self._abort_reload()
             return self.error.set('configuration reload aborted by ^C or SIGINT')
         except Error as exc:
             if getenv().debug.configuration:
                 raise
+            line, reason = self.parser.index_line, str(exc)
+            self._abort_reload()
             return self.error.set(
-                f'problem parsing configuration file line {self.parser.index_line}\nerror message: {exc}',
+                f'problem parsing configuration file line {line}\nerror message: {reason}',
             )
         except Exception as exc:
             if getenv().debug.configuration:
                 raise
+            line, reason = self.parser.index_line, str(exc)
+            self._abort_reload()
             return self.error.set(
-                f'problem parsing configuration file line {self.parser.index_line}\nerror message: {exc}',
+                f'problem parsing configuration file line {line}\nerror message: {reason}',
             )
 
     def _reload(self) -> bool:
@@ -570,9 +593,7 @@ class Configuration(_Configuration):
         fname = self._configurations.pop(0)
         self._configurations.append(fname)
 
-        # clearing the current configuration to be able to re-parse it
-        self._clear()
-
+        # nothing of the running configuration is touched before the source can be read
         if self._text:
             if not self.parser.set_text(fname):
                 return False
@@ -580,18 +601,20 @@ class Configuration(_Configuration):
             # resolve any potential symlink, and check it is a file
             target = os.path.realpath(fname)
             if not os.path.isfile(target):
-                return False
+                return self.error.set(f'the configuration file {fname} is not a file')
             if not self.parser.set_file(target):
                 return False
+
+        # clearing the current configuration to be able to re-parse it
+        self._clear()
 
         self.process.add_api()
 
         if self.parse_section('root') is not True:
-            self._rollback_reload()
             line_str = ' '.join(self.parser.line)
-            return self.error.set(
-                f'\nsyntax error in section {self.scope.location()}\nline {self.parser.number}: {line_str}\n\n{self.error!s}',
-            )
+            message = f'\nsyntax error in section {self.scope.location()}\nline {self.parser.number}: {line_str}\n\n{self.error!s}'
+            self._abort_reload()
+            return self.error.set(message)
 
         self._commit_reload()
         self._link()
